@@ -53,7 +53,9 @@ type tcpProc struct {
 	lb lb.Balancer
 	hm *hc.Monitor
 
-	wg sync.WaitGroup
+	wg       sync.WaitGroup
+	quitOnce sync.Once
+	quit     chan struct{} // closed by Stop
 }
 
 func newProc(name string, cfg *service.Config, hosts []*host.Host, stats *proc.Stats, logger log.Logger) (*tcpProc, error) {
@@ -64,6 +66,7 @@ func newProc(name string, cfg *service.Config, hosts []*host.Host, stats *proc.S
 		cfg:     cfg,
 		hostSet: host.NewSet(hosts...),
 		lb:      lb.New(cfg.GetLbPolicy()),
+		quit:    make(chan struct{}),
 	}
 
 	var err error
@@ -129,6 +132,11 @@ func (p *tcpProc) HandleConn(conn net.Conn) {
 		select {
 		case <-host.WaitRemoved():
 			p.Infof("host: %s removed, conn will close...", host.Addr)
+			sconn.Close()
+			cconn.Close()
+			return
+		case <-p.quit:
+			// the backend may neither answer nor hang up: do not wait for the idle timeout.
 			sconn.Close()
 			cconn.Close()
 			return
@@ -297,6 +305,9 @@ func (p *tcpProc) StopListen() (err error) {
 }
 
 func (p *tcpProc) Stop() error {
+	p.quitOnce.Do(func() {
+		close(p.quit)
+	})
 	p.hm.Stop()
 	p.ln.Stop()
 	p.wg.Wait()
